@@ -60,7 +60,12 @@ def run(tier, seed, only=None):
             if tier == "quick":
                 hs2 = rnd.sample(hs2, min(30, len(hs2)))
             for i, h in enumerate(hs + hs2):
-                cases.append({"id": "%s-%d" % (drv, i), "h": h["h"], "ev": h["ev"], "viz": h["viz"]})
+                cases.append({"id": "%s-%d" % (drv, i), "h": h["h"], "ev": h["ev"], "viz": h["viz"], "cmds": h.get("cmds", True)})
+            # histories that START in a project without commands (the first run generates nothing; commands appear later)
+            hf, _ = P.gen_histories("Gen_Pipeline_%s_fresh" % drv)
+            ngen["fresh-" + drv] = len(hf)
+            for i, h in enumerate(hf):
+                cases.append({"id": "%s-fresh%d" % (drv, i), "h": h["h"], "ev": h["ev"], "viz": h["viz"], "cmds": h.get("cmds", True)})
     allev, info = P.replay_all(d, cases)
     mism = P.validate(d, allev)
     first = P.first_mismatch_per_case(mism, PROP)
